@@ -136,7 +136,34 @@ func (w *CliWorld) execRelay(op *Op, cli *turn.Client) bool {
 		w.K.Stats.Probe("connattempt_burst")
 	case "srv_raw":
 		b, _ := hex.DecodeString(op.A.Raw)
-		w.Net.SendUDP(w.SrvAddr, w.cliAddr, b)
+		from := w.SrvAddr
+		if op.A.Peer != "" {
+			from = mustUDPAddr(op.A.Peer) // a stranger
+		}
+		w.Net.SendUDP(from, w.cliAddr, b)
+	case "handle_inbound":
+		b, _ := hex.DecodeString(op.A.Raw)
+		from := w.SrvAddr
+		if op.A.Peer != "" {
+			from = mustUDPAddr(op.A.Peer)
+		}
+		w.call(op, func(c *callRec) {
+			handled, err := cli.HandleInbound(b, from)
+			c.Err = err
+			isSTUN := len(b) >= 20 && stun.IsMessage(b)
+			_, _, isCD := parseChannelData(b)
+			fromSrv := ustr(from) == ustr(w.SrvAddr)
+			switch {
+			case !handled && err != nil:
+				w.viol("C09", "misclassified", kv("got", "unhandled+error"), "HandleInbound returned (false, %v): not one of the documented combinations", err)
+			case (isSTUN || isCD) && !handled:
+				w.viol("C09", "misclassified", kv("got", "unhandled", "want", "handled"), "a STUN/ChannelData-shaped datagram of %d bytes was reported as not handled", len(b))
+			case !isSTUN && !isCD && !fromSrv && (handled || err != nil):
+				w.viol("C09", "misclassified", kv("got", "handled", "want", "unhandled"), "application data from a stranger was reported as handled=%v err=%v", handled, err)
+			case !isSTUN && !isCD && fromSrv && (!handled || err == nil):
+				w.viol("C09", "misclassified", kv("got", "no-error", "want", "error"), "non-STUN data from the STUN server address must be (true, error), got (%v, %v)", handled, err)
+			}
+		})
 	default:
 		return false
 	}
@@ -350,7 +377,11 @@ func (w *CliWorld) livenessRelay(now int64, stalled bool) {
 		}
 		c.probed = true
 		if !c.Done || c.Err != nil {
-			w.viol("C13", "inbound-blocked", kv("by", w.P.Flavor), "liveness probe (%s) after inbound bursts did not succeed: done=%v err=%v - the client's inbound path is blocked", c.Kind, c.Done, c.Err)
+			prop, cls := "C13", "inbound-blocked"
+			if w.P.Property == "C09" {
+				prop, cls = "C09", "dead-after-input"
+			}
+			w.viol(prop, cls, kv("by", w.P.Flavor), "liveness probe (%s) after inbound bursts did not succeed: done=%v err=%v - the client's inbound path is blocked", c.Kind, c.Done, c.Err)
 		}
 	}
 }
